@@ -22,6 +22,10 @@ EPOCH = Time("2020-01-01T00:00:00", format="isot", precision=9)
 DAYTOL = Fraction(1, 2 ** 50)
 
 
+
+class MalformedResult(Exception):
+    """the real call returned something the property excludes outright (e.g. another shape)"""
+
 def is_broadcast(ssh, shsh):
     """shift array with fewer or length-1 axes than the sample shape (not 0-d)"""
     if len(shsh) == 0:
@@ -98,7 +102,10 @@ def replay_case(tab, case, var):
     d = sl.meta_diff(m0, sl.meta_of(y))
     if d or y.shape != z.shape:
         out.append(("time_shift:metadata", "%s changed %s (shape %r -> %r)" % (what, d, z.shape, y.shape)))
-    a = materialise(y).reshape(N, -1)
+    try:
+        a = materialise(y).reshape(N, -1)
+    except Exception as e:  # noqa   (a lazy result that cannot be computed)
+        return out + [("time_shift:raised", "%s: computing the result raised %r" % (what, e))], info
     xin = materialise(z).reshape(N, -1)
     scale = float(np.abs(xin).max()) if xin.size else 1.0
     tol = 1e-5 * scale
@@ -271,6 +278,8 @@ def drive_probe(p, eid):
     m0 = sl.meta_of(z)
     y = pb.time_shift(z, arg)
     meta_changed = sl.meta_diff(m0, sl.meta_of(y))
+    if y.shape != z.shape:
+        raise MalformedResult("time_shift changed the shape %r -> %r" % (z.shape, y.shape))
     a = materialise(y).reshape(N, nel)
     el = []
     for j in range(nel):
@@ -288,7 +297,15 @@ def run_trace(chk, rnd, thorough):
     params = probe_params(rnd, thorough)
     events, ambiguous = [], 0
     for i, p in enumerate(params):
-        ev, meta_changed, seen = drive_probe(p, i)
+        try:
+            ev, meta_changed, seen = drive_probe(p, i)
+        except Exception as e:  # noqa   (valid input: an exception of the real call is a finding, not a crash)
+            import traceback
+            tb = traceback.extract_tb(e.__traceback__)
+            if isinstance(e, MalformedResult) or any("pulsarbat" in f.filename and "/verif/" not in f.filename for f in tb):
+                chk.violation("time_shift:raised", "tone probe %r raised %r" % (p, e), {"kind": "probe", "p": p})
+                continue
+            raise
         if any(0 < abs(s) <= 1e-7 for s in seen):
             ambiguous += 1            # inside the allclose(shift, 0) band: named deviation, not judged
             continue
